@@ -42,6 +42,8 @@ type Prog struct {
 	parents  map[*ast.File]map[ast.Node]ast.Node
 	Tests    bool
 	GOARCH   string
+	// RoleNotes: anchors that were not found by name and were resolved by role (roles.go)
+	RoleNotes []string
 }
 
 func short(s string) string { return strings.ReplaceAll(s, modPrefix, "") }
@@ -160,6 +162,7 @@ func Load(lc LoadConfig) (*Prog, error) {
 	if len(p.Pkgs) == 0 {
 		return nil, fmt.Errorf("no module packages loaded")
 	}
+	p.resolveRoles()
 	return p, nil
 }
 
@@ -224,10 +227,18 @@ func Callee(info *types.Info, call *ast.CallExpr) *types.Func {
 
 // CalleeName returns the shortened full name of the static callee, "" when dynamic,
 // "builtin.<name>" for builtins.
+func typeutilCallee(info *types.Info, call *ast.CallExpr) types.Object {
+	return typeutil.Callee(info, call)
+}
+
 func CalleeName(info *types.Info, call *ast.CallExpr) string {
 	switch o := typeutil.Callee(info, call).(type) {
 	case *types.Func:
-		return short(o.FullName())
+		n := short(o.FullName())
+		if c, ok := aliasActualToCanon[n]; ok {
+			return c // renamed anchor resolved by role (roles.go)
+		}
+		return n
 	case *types.Builtin:
 		return "builtin." + o.Name()
 	}
